@@ -215,6 +215,19 @@ def class_probes(t, cls):
                     what = f"{members[i]} and {members[j]} both present"
                     P.must_reject("ctor", what, f"{kind}:{gname}", via_ctor, bad, case)
                     P.must_reject("tree", what, f"{kind}:{gname}", via_tree, wire.doc(bad), case)
+            # the same keyword NAMES with explicit None for the unused members: a valid build first, then the violating one
+            def build_explicit(present):
+                name_, kw_, mem_ = base
+                kwargs = {k: (U.build(v) if S._isterm(v) else v) for k, v in kw_.items() if k not in members}
+                for m in members:
+                    kwargs[m] = (U.build(val(m)) if S._isterm(val(m)) else val(m)) if m in present else None
+                return cls(*[U.build(x) if S._isterm(x) else x for x in mem_], **kwargs)
+
+            if n not in ("SONRQ", "OFX"):
+                P.must_accept("ctor", f"only {members[0]}, the others passed as None", f"{kind}:{gname}", build_explicit, (members[0],), case)
+                P.must_reject("ctor", f"{members[0]} and {members[1]} set, same keyword names as a valid call before", f"{kind}:{gname}", build_explicit, (members[0], members[1]), case)
+                if kind == "exactly-one":
+                    P.must_reject("ctor", "all members passed as None", f"{kind}:{gname}", build_explicit, (), case)
             none = base
             for m in members:
                 none = with_kw(none, m, None)
